@@ -96,6 +96,14 @@ def make_loop(shape, path, via_apply=False):
              "(define (step n acc) (define add1 (adder 1)) (if (= (probe n) 0) acc (lambda () %s)))" % W(call("step", "(- n 1)", "(add1 acc)")),
              "(define (drive t) (if (procedure? t) (drive (t)) t))"]
         return d, "(drive (step {N} 0))"
+    if shape == "operator-expression":
+        # the operator of the tail call is itself a compound expression: a conditional, an element of a vector, the result of a call
+        d = ["(define optable (vector #f))", "(define (pickop) lp)",
+             "(define (lp n acc) (if (= (probe n) 0) acc %s))" % W(call("%s", "(- n 1)", "(+ acc 1)")),
+             "(vector-set! optable 0 lp)"]
+        ops = ["(if (> n 0) lp car)", "(vector-ref optable 0)", "(pickop)", "((lambda () lp))", "(car (list lp))"]
+        d[2] = d[2] % ops[(len(path) + sum(map(len, path))) % len(ops)]
+        return d, "(lp {N} 0)"
     if shape == "drain":
         # the iteration is driven by an effectful test in a cond => clause that is not the last one: one item is taken per round
         d = ["(define q 0)", "(define (take!) (if (> q 0) (begin (set! q (- q 1)) (+ q 1)) #f))",
@@ -113,7 +121,7 @@ def expected(shape, N):
     return N
 
 
-SHAPES = ["self", "mutual2", "mutual3", "higher-order", "variadic", "closure-returned", "internal-var", "internal-proc", "closure-pair", "closure-ring", "drain", "foreign-internal"]
+SHAPES = ["self", "mutual2", "mutual3", "higher-order", "variadic", "closure-returned", "internal-var", "internal-proc", "closure-pair", "closure-ring", "drain", "foreign-internal", "operator-expression"]
 
 
 def judge(ctx, case, rec, leg):
